@@ -8,6 +8,7 @@ package main
 import (
 	"context"
 	"fmt"
+	"io"
 	"strings"
 	"sync"
 	"time"
@@ -148,9 +149,27 @@ type rig struct {
 	closed bool
 }
 
+// lowEntropy is a random source that often repeats itself: half of its reads are all zero bytes, so generated id
+// candidates collide with ids generated earlier (after the id interceptor has mapped them).
+type lowEntropy struct{ r *vk.Rand }
+
+func (l lowEntropy) Read(p []byte) (int, error) {
+	if l.r.Bool() {
+		for i := range p {
+			p[i] = 0
+		}
+		return len(p), nil
+	}
+	return l.r.Read(p)
+}
+
 func newRig(r *vk.Run, model *sm.Model, initial sm.State, rng *vk.Rand) *rig {
 	g := &rig{r: r, model: model, state: initial}
-	opts := append(model.ResourceOptions(), resource.WithClock(&fakeClock{}), resource.WithRNG(rng.Fork()))
+	var src io.Reader = rng.Fork()
+	if rng.Bool() {
+		src = lowEntropy{rng.Fork()}
+	}
+	opts := append(model.ResourceOptions(), resource.WithClock(&fakeClock{}), resource.WithRNG(src))
 	ctx, cancel := context.WithCancel(context.Background())
 	g.cancel = cancel
 	if model.Cfg.IsValue {
